@@ -166,6 +166,10 @@ f_bar: f_bar_hd "=bar>" /[0-9]+/ "</function>"
 "##),
     g!("tokref_range", Lark, "prod tokref", r##"start: /[a-z]{1,4}/ <[@S0@-@S1@]> ("x" | <[@S2@]>) "!"
 "##),
+    g!("tokref_three_alts", Lark, "prod tokref", r##"start: "a" ( <|tool|> | <|end|> | <|pad|> ) "b" /[0-9]+/
+"##),
+    g!("tokref_five_alts", Lark, "prod tokref", r##"start: /[xy]/ ( <[@S0@]> | <[@S1@]> | <[@S2@]> | <[@S0@]> "q" | <[@S1@]> "r" ) "."
+"##),
     g!("tokref_think", Lark, "prod tokref", r##"start: <|tool|> "\n" /(.|\n)*/ <|end|> answer
 answer: "yes" | "no" | "maybe"
 "##),
